@@ -9,7 +9,7 @@ class C15(Prop):
     pid = "C15"
     title = "Debug, TLS, load-config, exception, security directories are decoded as stored"
     thm_modules = ["PeliteModel.Thm.C15"]
-    gens = [gen_dirs.gen_dirs_corpus, gen_dirs.gen_dirs_examples, gen_dirs.gen_dirs, gen_dirs.gen_dirs_cv_bounds, gen_dirs.gen_dirs_fuzz]
+    gens = [gen_dirs.gen_dirs_corpus, gen_dirs.gen_dirs_examples, gen_dirs.gen_dirs, gen_dirs.gen_dirs_cv_bounds, gen_dirs.gen_dirs_fuzz, gen_dirs.gen_pogo_hist]
 
     def oracle(self, op, impl, model, spec):
         a = op.split(" ")
@@ -19,6 +19,18 @@ class C15(Prop):
             return "%s: %s" % (klass(impl), impl[:200])
         if "MISALIGNED" in impl or "OUTSIDE" in impl:
             return "a returned reference is misaligned or outside the buffer: %s" % impl[:300]
+        if fam == "pogo_hist":
+            # every history on the real PgoIter answers like the same calls on the plain list of the records, and the
+            # iterator is fused (C18_pgo_is_seq / C18_pgo_fused_history say so of the model)
+            want = spec_field(spec, "spec")
+            m = re.match(r"ok (.*) fused=(\d)$", impl)
+            if not m:
+                return "POGO history answer not understood: %s" % impl[:200]
+            if m.group(2) != "1":
+                return "PgoIter is not fused: %s" % impl[:200]
+            if want is not None and m.group(1) != want:
+                return "POGO history answered %s, the same calls on the list of the records give %s" % (m.group(1)[:200], want[:200])
+            return None
         if fam == "exc" and len(a) == 4 and a[2] == "lookup":
             if not impl.startswith("ok ") or spec_field(spec, "hyp") != "1":
                 return None
